@@ -1,6 +1,7 @@
-From Coq Require Import List NArith ZArith Arith Bool Lia.
-From PG Require Import Common.Strs Graph.Mol Graph.Match Graph.Reaction.
+From Coq Require Import List NArith ZArith Arith Bool Lia String.
+From PG Require Import Common.Strs Ring.Peg Ring.Reader Graph.Mol Graph.Match Graph.Reaction.
 Import ListNotations.
+Notation length := List.length.
 
 Definition elems (m : mol) : list N := map a_z (atoms m).
 
@@ -72,3 +73,144 @@ Proof.
     try (inversion H; subst; reflexivity);
     try (inversion H; subst; unfold set_atoms; simpl; apply upd_atom_other; eapply G; eauto).
 Qed.
+
+(* ---------- the electron balance of an accepted rule ----------
+   Independent specification: what each edit does to (twice) the electron
+   count of a labelled atom, read off the edit and the reactant fragment only. *)
+Definition tb (t : btype) : Z := match type_bal t with Some z => z | None => 0%Z end.
+Definition contrib (f : fragment) (e : edit) : list (nat * Z) :=
+  match e with
+  | EForm i j t => [(i, (- tb t)%Z); (j, (- tb t)%Z)]
+  | EBreak i j => match qbond_type f i j with Some t => [(i, tb t); (j, tb t)] | None => [] end
+  | EModify i j nt => match qbond_type f i j with
+                      | Some t => [(i, (tb t - tb nt)%Z); (j, (tb t - tb nt)%Z)] | None => [] end
+  | EInc i j => [(i, (-2)%Z); (j, (-2)%Z)]
+  | EDec i j => [(i, 2%Z); (j, 2%Z)]
+  | ESetRad i n => [(i, (- (2 * Z.of_N n))%Z)]
+  | ERadInc i => [(i, (-2)%Z)] | ERadDec i => [(i, 2%Z)]
+  | EChgInc i => [(i, (-2)%Z)] | EChgDec i => [(i, 2%Z)]
+  end.
+Definition delta_at (k : nat) (l : list (nat * Z)) : Z :=
+  fold_right (fun p acc => if Nat.eqb (fst p) k then (snd p + acc)%Z else acc) 0%Z l.
+Definition rule_balance (r : rule) (k : nat) : Z :=
+  delta_at k (flat_map (contrib (r_frag r)) (r_edits r)).
+
+Definition bal_fold (ds : list (nat * Z)) (b : list Z) : list Z :=
+  fold_left (fun b id => bal_add b (fst id) (snd id)) ds b.
+
+Lemma bal_add_length b i d : length (bal_add b i d) = length b.
+Proof. revert i; induction b as [|x b IH]; intros [|i]; simpl; auto. Qed.
+
+Lemma bal_add_nth b i d k : k < length b ->
+  nth k (bal_add b i d) 0%Z = (nth k b 0 + (if Nat.eqb i k then d else 0))%Z.
+Proof.
+  revert i k; induction b as [|x b IH]; intros i k Hk; simpl in Hk; [lia|].
+  destruct i as [|i], k as [|k]; simpl; try lia.
+  - apply IH. lia.
+Qed.
+
+Lemma bal_fold_length ds : forall b, length (bal_fold ds b) = length b.
+Proof. induction ds as [|p ds IH]; intros b; simpl; auto. unfold bal_fold in *. simpl. rewrite IH. apply bal_add_length. Qed.
+
+Lemma bal_fold_nth ds : forall b k, k < length b ->
+  nth k (bal_fold ds b) 0%Z = (nth k b 0 + delta_at k ds)%Z.
+Proof.
+  induction ds as [|p ds IH]; intros b k Hk; simpl; [lia|].
+  unfold bal_fold in *. simpl. rewrite IH by (rewrite bal_add_length; exact Hk).
+  rewrite bal_add_nth by exact Hk. destruct (Nat.eqb (fst p) k); lia.
+Qed.
+
+Lemma bal_fold_app a b l : bal_fold (a ++ b) l = bal_fold b (bal_fold a l).
+Proof. unfold bal_fold. apply fold_left_app. Qed.
+
+Lemma bond_bal_type s bt b : bond_bal s = Some (bt, b) -> tb bt = b.
+Proof.
+  unfold bond_bal. repeat (destruct (is s _); [intros H; inversion H; reflexivity|]). discriminate.
+Qed.
+
+(* the bookkeeping invariant of the rule reader *)
+Definition RInv (n : nat) (st : rstate) : Prop :=
+  st_bal st = bal_fold (flat_map (contrib (st_frag st)) (st_edits st)) (repeat 0%Z n).
+
+Lemma with_edit_inv n st e ds : RInv n st -> ds = contrib (st_frag st) e -> RInv n (with_edit st e ds).
+Proof.
+  unfold RInv, with_edit. simpl. intros H ->. rewrite flat_map_app, bal_fold_app, <- H. simpl.
+  rewrite app_nil_r. reflexivity.
+Qed.
+
+Lemma opt_bondtype_tb l bt b r : opt_bondtype l = ROk' (bt, b, r) -> tb bt = b.
+Proof.
+  unfold opt_bondtype. destruct l as [|t l]; [discriminate|].
+  destruct (is_node "BondType"%string t).
+  - destruct (kids t) as [|[? ?|s|?] [|? ?]]; try discriminate.
+    destruct (bond_bal s) as [[bt' b']|] eqn:E; [|discriminate].
+    intros H; inversion H; subst. eapply bond_bal_type; eauto.
+  - intros H; inversion H; reflexivity.
+Qed.
+
+Ltac brk H := repeat match type of H with
+  | (if ?x then _ else _) = _ => destruct x eqn:?
+  | rbind ?x _ = _ => destruct x eqn:?; cbn [rbind] in H
+  | match ?x with _ => _ end = _ => destruct x eqn:?
+  end; try discriminate.
+
+Lemma read_change_inv n st c st' : read_change st c = ROk' st' -> RInv n st ->
+  RInv n st' /\ st_frag st' = st_frag st /\ st_names st' = st_names st.
+Proof.
+  intros H I. unfold read_change in H. brk H.
+  all: inversion H; subst; clear H; (split; [|split; reflexivity]); apply with_edit_inv; try exact I.
+  all: unfold contrib;
+    repeat match goal with
+    | H : qbond_type _ _ _ = Some _ |- _ => rewrite H; clear H
+    | H : opt_bondtype _ = ROk' _ |- _ => apply opt_bondtype_tb in H
+    | H : bond_bal _ = Some _ |- _ => apply bond_bal_type in H
+    end; try reflexivity.
+  all: try (subst; reflexivity).
+  all: try (match goal with H : btype_eqb _ ?b = true |- _ => destruct b; try discriminate H end; subst; reflexivity).
+  all: try (match goal with H : type_bal _ = Some ?z |- _ => cbn in H; inversion H; subst; reflexivity end).
+Qed.
+
+Lemma read_tchain_inv n fuel : forall st t st', read_tchain fuel st t = ROk' st' -> RInv n st ->
+  RInv n st' /\ st_frag st' = st_frag st /\ st_names st' = st_names st.
+Proof.
+  induction fuel as [|f IH]; intros st t st' H I; simpl in H; [discriminate|].
+  destruct (kids t) as [|cc rest]; [discriminate|].
+  destruct (kids cc) as [|c [|? ?]]; try discriminate.
+  destruct (read_change st c) as [st1|] eqn:E; [|discriminate]. cbn [rbind] in H.
+  destruct (read_change_inv n st c st1 E I) as (I1 & F1 & N1).
+  destruct rest as [|nxt ?].
+  - inversion H; subst. auto.
+  - destruct (IH _ _ _ H I1) as (I2 & F2 & N2). split; [exact I2|]. split; congruence.
+Qed.
+
+Lemma forallb_nth_zero l k : forallb (Z.eqb 0) l = true -> k < length l -> nth k l 0%Z = 0%Z.
+Proof.
+  revert k; induction l as [|x l IH]; intros k H Hk; simpl in *; [lia|].
+  apply andb_prop in H. destruct H as [H1 H2]. destruct k as [|k].
+  - symmetry. apply Z.eqb_eq. exact H1.
+  - apply IH; [exact H2|lia].
+Qed.
+
+Lemma nth_repeat_zero n k : nth k (repeat 0%Z n) 0%Z = 0%Z.
+Proof. revert k; induction n as [|n IH]; intros [|k]; simpl; auto. Qed.
+
+(* an accepted rule leaves every labelled atom's electrons balanced *)
+Theorem accepted_rule_balanced elements xlower t r :
+  read_rule elements xlower t = ROk' r ->
+  forall k, k < length (r_names r) -> rule_balance r k = 0%Z.
+Proof.
+  unfold read_rule. intros H. brk H.
+  match goal with E : read_tchain _ ?st0 _ = ROk' ?st |- _ =>
+    destruct (read_tchain_inv (length (st_names st0)) _ _ _ _ E) as (I & F & N); [reflexivity|] end.
+  inversion H; subst; clear H. simpl in *. intros k Hk. unfold rule_balance. simpl.
+  unfold RInv in I. rewrite F in I.
+  match goal with Hf : forallb _ _ = true |- _ => pose proof (forallb_nth_zero _ k Hf) as Z0 end.
+  rewrite I in Z0. rewrite bal_fold_length, repeat_length in Z0. specialize (Z0 Hk).
+  rewrite bal_fold_nth in Z0 by (rewrite repeat_length; exact Hk).
+  rewrite nth_repeat_zero in Z0. lia.
+Qed.
+
+(* contrapositive, as the property states it: an unbalanced rule is rejected *)
+Corollary unbalanced_rule_rejected elements xlower t r k :
+  k < length (r_names r) -> rule_balance r k <> 0%Z -> read_rule elements xlower t <> ROk' r.
+Proof. intros Hk Hn H. apply Hn. eapply accepted_rule_balanced; eauto. Qed.
